@@ -287,12 +287,41 @@ func c20Exec(tk *c20Task, sc *c20Script, st c20Step, shared [][]byte, annexb [][
 		if tk.f == nil {
 			return
 		}
-		if st.arg == 1 {
+		if st.arg&1 == 1 {
 			tk.f.FragEncMode = mp4.EncModeBoxTree
 		}
-		var b bytes.Buffer
-		err := tk.f.Encode(&b)
-		out = append(hashOf(b.Bytes()), errStr(err)...)
+		// the task's own output device: every Write is an I/O point; with arg >= 2 one write is refused
+		w := &c20FailWriter{dev: &c20Dev{tk: tk}, failAt: (st.arg >> 1) * 3}
+		err := tk.f.Encode(w)
+		out = append(hashOf(w.dev.buf), errStr(err)...)
+	case "refrag":
+		// the samples of one track of the task's first fragment are put into a new fragment of the task's own and
+		// encoded (what a track extractor does)
+		if tk.f == nil || tk.f.Init == nil || len(tk.f.Segments) == 0 || len(tk.f.Segments[0].Fragments) == 0 {
+			return
+		}
+		src := tk.f.Segments[0].Fragments[0]
+		trexs := tk.f.Init.Moov.Mvex.Trexs
+		if src.Moof == nil || src.Mdat == nil || len(trexs) == 0 {
+			return
+		}
+		trex := trexs[st.arg%len(trexs)]
+		fs, err := src.GetFullSamples(trex)
+		if err != nil {
+			out = []byte(err.Error())
+			return
+		}
+		nf, err := mp4.CreateFragment(1, trex.TrackID)
+		if err != nil {
+			out = []byte(err.Error())
+			return
+		}
+		for _, s := range fs {
+			nf.AddFullSample(s)
+		}
+		w := &c20Dev{tk: tk}
+		err = nf.Encode(w)
+		out = append(hashOf(w.buf), errStr(err)...)
 	case "encodeSW":
 		if tk.f == nil {
 			return
@@ -479,7 +508,12 @@ func c20DrawScript(t *sim.Tape, nInputs int, ins []c20Input) c20Script {
 		case 0, 1:
 			sc.steps = append(sc.steps, c20Step{"info", t.Draw(3)})
 		case 2:
-			sc.steps = append(sc.steps, c20Step{"encode", t.Draw(2)})
+			if t.Chance(300) {
+				sc.steps = append(sc.steps, c20Step{"refrag", t.Draw(4)})
+			} else {
+				// bit 0: box-tree mode; bits 1..: 0 = healthy device, k>0 = write 3k is refused
+				sc.steps = append(sc.steps, c20Step{"encode", t.Draw(2) | t.Draw(2)*t.Draw(4)<<1})
+			}
 		case 3:
 			sc.steps = append(sc.steps, c20Step{"encodeSW", 0})
 		case 4:
